@@ -23,14 +23,17 @@ theorem verify_total (m : Sm9SignMasterKey) (id data : List UInt8) (h : Nat) (s 
 
 example (m : Sm9SignMasterKey) : m.verify_sign [] [] 0 ⟨0, 0, 0⟩ ≠ .panic := verify_total _ _ _ _ _
 
-/-- `mod_n_from_hash(ha)` panics iff fewer than 40 bytes are given (recorded: the function has no error channel) -/
-theorem mod_n_from_hash_panic_iff (ha : List UInt8) : mod_n_from_hash ha = .panic ↔ ha.length < 40 :=
-  Proofs.SM9Logic.mod_n_from_hash_panic_iff ha
+/-- `mod_n_from_hash(ha)` returns a 256-bit value for EVERY input length (the fixed code: fewer than 40 bytes used to panic) -/
+theorem mod_n_from_hash_total (ha : List UInt8) : ∃ r, mod_n_from_hash ha = .ok r ∧ r < 2 ^ 256 :=
+  Proofs.SM9Logic.mod_n_from_hash_total ha
 
-example : mod_n_from_hash (List.replicate 39 0) = .panic := (mod_n_from_hash_panic_iff _).2 (by decide)
-example : mod_n_from_hash (List.replicate 40 0) ≠ .panic := fun h => absurd ((mod_n_from_hash_panic_iff _).1 h) (by decide)
+theorem mod_n_from_hash_not_panic (ha : List UInt8) : mod_n_from_hash ha ≠ .panic :=
+  Proofs.SM9Logic.mod_n_from_hash_not_panic ha
 
-/-- … and otherwise returns a 256-bit value; it never returns an error -/
+example : mod_n_from_hash (List.replicate 39 0) ≠ .panic := mod_n_from_hash_not_panic _
+example : mod_n_from_hash [] ≠ .panic := mod_n_from_hash_not_panic _
+
+/-- (kept for callers) at least 40 bytes: a 256-bit value; it never returns an error -/
 theorem mod_n_from_hash_ok (ha : List UInt8) (h : 40 ≤ ha.length) : ∃ r, mod_n_from_hash ha = .ok r ∧ r < 2 ^ 256 :=
   Proofs.SM9Logic.mod_n_from_hash_ok ha h
 
